@@ -103,8 +103,12 @@ class World:
       o = int(c['v'])
     elif t == 'str':
       o = str(c['v'])
-    elif t in ('arr', 'arr2'):       # 1-D / 2-D integer ndarray
+    elif t in ('arr', 'arr2'):       # 1-D / 2-D integer ndarray owning its buffer
       o = np.array(c['v'], dtype=np.int64)
+    elif t == 'view':                # another array object on the buffer of cell `of` (window off, shape)
+      own = self.obj(c['of'])
+      size = int(np.prod(c['shape'])) if c['shape'] else 1
+      o = own.reshape(-1)[c['off']:c['off'] + size].reshape(c['shape'])
     elif t == 'none':
       o = None
     elif t == 'null':
@@ -189,8 +193,14 @@ class World:
     if isinstance(o, T.NullMap):
       return {'t': 'null', 'r': id(o)}
     if isinstance(o, np.ndarray):
-      # opaque leaf for the model: the flattened content (the model request flattens 2-D arrays the same way)
-      return {'t': 'leaf', 'r': id(o), 'v': {'arr': [int(x) for x in o.reshape(-1).tolist()]} if o.ndim >= 1 else {'?': repr(o)}}
+      if o.ndim == 0 or o.dtype != np.int64 or not o.flags['C_CONTIGUOUS']:
+        return {'t': 'leaf', 'v': {'?': f'ndarray{o.shape}{o.dtype}'}}
+      own = owner(o)
+      off = (o.__array_interface__['data'][0] - own.__array_interface__['data'][0]) // 8 if o.size else 0
+      _KEEP.append((own, o))      # alive until the case ends: ids are never reused
+      # the array OBJECT, the BUFFER it lives in (identity of the owning array), its window and its elements
+      return {'t': 'nd', 'r': id(o), 'b': ('buf', id(own)), 'off': int(off) if o.size else None,
+              'shape': [int(x) for x in o.shape], 'v': [int(x) for x in o.reshape(-1).tolist()]}
     if o is None:
       return {'t': 'leaf', 'v': 'none'}
     if isinstance(o, bool):
@@ -200,6 +210,13 @@ class World:
     if isinstance(o, str):
       return {'t': 'leaf', 'v': {'str': o}}
     return {'t': 'leaf', 'v': {'?': type(o).__name__}}
+
+
+def owner(a):
+  """The array that owns the memory `a` shows (end of the `.base` chain)."""
+  while isinstance(a.base, np.ndarray):
+    a = a.base
+  return a
 
 
 class Labels:
@@ -226,10 +243,17 @@ class Labels:
       return out
     if t == 'null':
       return {'t': t, 'id': self.of(d['r'])}
+    if t == 'nd':
+      b = d['b']
+      if isinstance(b, list):
+        b = tuple(b)
+      size = 1
+      for x in d['shape']:
+        size *= x
+      return {'t': t, 'id': self.of(d['r']), 'buf': self.of(b), 'off': d['off'] if size else None,
+              'shape': d['shape'], 'v': d['v']}
     if t == 'leaf':
       v = d['v']
-      if isinstance(v, dict) and 'arr' in v:
-        return {'t': t, 'v': v, 'id': self.of(d['r'])}
       return {'t': t, 'v': v}                    # scalars: CPython interning makes identity meaningless
     return d
 
@@ -511,7 +535,9 @@ def run_impl(case):
   T = _tree()
   w = World(case)
   labels = Labels({id(w.objs[r]): f'cell#{r}' for r, c in enumerate(case['heap'])
-                   if c['t'] in ('dict', 'list', 'tuple', 'arr', 'arr2', 'null') and not (c['t'] == 'tuple' and not c['rs'])})
+                   if c['t'] in ('dict', 'list', 'tuple', 'arr', 'arr2', 'view', 'null') and not (c['t'] == 'tuple' and not c['rs'])})
+  for r, b in buffer_cells(case['heap']).items():      # the buffer of an owning array = the model's appended cell
+    labels.tab[('buf', id(w.objs[r]))] = f'cell#{b}'
   known = {}            # id -> object: every identity-carrying object seen so far (kept alive)
   for r, o in w.objs.items():
     if id(o) in labels.tab:
@@ -554,16 +580,10 @@ def run_impl(case):
         return
       value = w.objs[op['value']] if 'value' in op else None
       in_place = bool(op.get('in_place', False))
-      skip = False
-      if kind in ('get', 'getd', 'set'):
-        ps = keys_paths(op['keys'])
-        skip = any(touches_arr(w, root, p, kind == 'set') for p in ps) or (kind == 'set' and len(ps) > 1 and has_arr(value))
-      elif kind == 'update':
-        skip = any(touches_arr(w, root, p, True) for p, _ in op['pairs']) or \
-            (len(op['pairs']) > 1 and any(has_arr(w.objs[v]) for _, v in op['pairs']))
-      # Indexing INSIDE an ndarray is outside the Lean model (arrays are opaque leaves there): the model
-      # skips the op.  The real code still runs it — copying ops only — and the oracle below judges it
-      # (no mutation of the original arrays, get-after-set, frame); the observation stays 'skipped'.
+      # A tuple-of-ints key (numpy multi-dimensional index) is outside the Lean model: the model skips the
+      # op.  The real code still runs it — copying ops only — and the oracle below judges it (no mutation of
+      # the original arrays, get-after-set, frame); the observation stays 'skipped'.
+      skip = unmodelled(op)
       oracle_only = skip
       if skip and (in_place or kind not in ('get', 'getd', 'set', 'update')):
         ops_obs.append({'skipped': True})
@@ -659,7 +679,11 @@ def run_impl(case):
           law(i, 'the viewed data differs from its deep copy taken before the operation')
       else:
         allowed = _path_objects(T, w, root, op, snap_deep)
-        bad = [k for k in changed if k not in allowed]
+        # an array that shares memory with an array on the key path shows the written element too: that is
+        # what aliasing means, it is not a second write
+        on_path_arrays = [before_nodes[k] for k in allowed if k in before_nodes and isinstance(before_nodes[k], np.ndarray)]
+        bad = [k for k in changed if k not in allowed and not (
+            isinstance(before_nodes[k], np.ndarray) and any(np.shares_memory(before_nodes[k], a) for a in on_path_arrays))]
         if bad:
           law(i, 'in-place set changed an object that is not on the key path')
       if oracle_only:          # judged by the laws above; not part of the correspondence
@@ -852,27 +876,56 @@ def _set_laws(T, w, law, i, op, view, nv, keys, value):
 
 # ----------------------------------------------------------------------------- model side
 
-def _for_model(x):
-  """The model keeps ndarrays opaque: a 2-D array is sent as its flattened content, a tuple-of-ints key
-  (only ever generated directly at an array) as the index of its first component — both only matter for the
-  model's decision to skip the operation, which is taken at the array before the key is used."""
-  if isinstance(x, dict):
-    if x.get('t') == 'arr2':
-      return {'t': 'arr', 'v': [e for row in x['v'] for e in row]}
-    if set(x) == {'t'} and isinstance(x['t'], list):
-      return {'x': x['t'][0]}
-    return {k: _for_model(v) for k, v in x.items()}
-  if isinstance(x, list):
-    return [_for_model(v) for v in x]
-  return x
+def buffer_cells(heap):
+  """Model cell index of the buffer of every owning array cell: buffers are appended after the case's cells."""
+  out, n = {}, len(heap)
+  for r, c in enumerate(heap):
+    if c['t'] in ('arr', 'arr2'):
+      out[r] = n
+      n += 1
+  return out
+
+
+def unmodelled(op):
+  """Tuple-of-ints keys (numpy multi-dimensional indices) are not in the Lean model."""
+  def tk(p):
+    return any(isinstance(k, dict) and 't' in k for k in p)
+  if op['op'] in ('get', 'getd', 'set', 'normalize') and op.get('keys') != 'empty':
+    return any(tk(p) for p in keys_paths(op['keys']))
+  if op['op'] == 'update':
+    return any(tk(p) for p, _ in op['pairs'])
+  return False
+
+
+def _model_heap(heap):
+  bufs = buffer_cells(heap)
+  cells, extra = [], []
+  for r, c in enumerate(heap):
+    if c['t'] == 'arr':
+      cells.append({'t': 'nd', 'b': bufs[r], 'off': 0, 'shape': [len(c['v'])]})
+      extra.append({'t': 'buf', 'v': list(c['v'])})
+    elif c['t'] == 'arr2':
+      cells.append({'t': 'nd', 'b': bufs[r], 'off': 0, 'shape': [len(c['v']), len(c['v'][0]) if c['v'] else 0]})
+      extra.append({'t': 'buf', 'v': [e for row in c['v'] for e in row]})
+    elif c['t'] == 'view':
+      cells.append({'t': 'nd', 'b': bufs[c['of']], 'off': c['off'], 'shape': list(c['shape'])})
+    else:
+      cells.append(c)
+  return cells + extra
+
+
+def _model_op(op):
+  if unmodelled(op):
+    return {'op': op['op'], 'skip': True, 'root': op.get('root', 0)}
+  return op
 
 
 def model_requests(case):
-  return [dict(model='tree', strict=case['strict'], heap=_for_model(case['heap']), ops=_for_model(case['ops']))]
+  return [dict(model='tree', strict=case['strict'], heap=_model_heap(case['heap']), ops=[_model_op(o) for o in case['ops']])]
 
 
 def model_obs(case, resps):
-  n0 = len(case['heap'])
+  n0 = len(case['heap']) + len(buffer_cells(case['heap']))
   labels = Labels({r: f'cell#{r}' for r in range(n0)})
   out = []
   for o in resps[0]['ops']:
